@@ -71,13 +71,17 @@ Init == \E sc \in Scenarios, r0 \in {1, 4} :
           /\ st  = [ApplyU(U!InitSt(PoolA, W0, r0), sc) EXCEPT !.k = 0]
           /\ stm = [ApplyM(M!InitSt(PoolB, <<W0[2], W0[1]>>, r0), sc) EXCEPT !.k = 0]
           /\ touched = FALSE
-          /\ last = [ev |-> [op |-> "init", scn |-> sc, row0 |-> r0], out |-> "ok", acts |-> <<>>, ret |-> <<>>, outm |-> "ok", retm |-> <<>>]
+          /\ last = [ev |-> [op |-> "init", scn |-> sc, row0 |-> r0], out |-> "ok", acts |-> <<>>, ret |-> <<>>, outm |-> "ok", retm |-> <<>>,
+                     view |-> U!View(st), viewm |-> M!View(stm)]
 
 Next == /\ st.k < MaxSteps
         /\ \E ev \in Events(st) :
              LET a == U!Step(st, ev)  b == M!Step(stm, MirEv(ev)) IN
              /\ st' = a.st /\ stm' = b.st
-             /\ last' = [ev |-> ev, out |-> a.out, acts |-> a.acts, ret |-> a.ret, outm |-> b.out, retm |-> b.ret]
+             /\ last' = [ev |-> ev, out |-> a.out, acts |-> a.acts, ret |-> a.ret, outm |-> b.out, retm |-> b.ret,
+                          \* what the strategy sees in after_bar: this bar's fees accrued, still this bar's price
+                          view  |-> U!View(IF ev.op = "endbar" THEN [a.st EXCEPT !.ptick = st.ptick, !.row = st.row] ELSE a.st),
+                          viewm |-> M!View(IF ev.op = "endbar" THEN [b.st EXCEPT !.ptick = stm.ptick, !.row = stm.row] ELSE b.st)]
              /\ touched' = (touched \/ (ev.op = "endbar" /\ (st.prev \in Bounds \/ RowsA[st.row].close \in Bounds)))
 Spec == Init /\ [][Next]_vars
 
